@@ -97,6 +97,52 @@ def apply_history_step(model, step):
         return m2
     return model
 
+
+PRESENTATIONS = ["f64", "f64", "f64", "f64", "f64", "f32", "int", "fortran", "readonly", "readonly"]
+
+
+def derive_presentation(scn):
+    """How the caller holds its data is not part of any property: float64 (half of the scenarios), float32, integer-typed
+    (when every value is integral, else float32), Fortran-ordered or read-only arrays.  A function of the scenario's content."""
+    if "present" not in scn:
+        key = json.dumps(["present", scn.get("kind"), scn.get("mode"), scn.get("metric"), scn.get("I_train"), scn.get("Y"), scn.get("Q")], sort_keys=True)
+        scn["present"] = PRESENTATIONS[int(hashlib.sha256(key.encode()).hexdigest()[:8], 16) % len(PRESENTATIONS)]
+    return scn["present"]
+
+
+def present_values(A, how, matrix=False):
+    """dtype part of a presentation (applied to the whole data set, so that the harness evaluates the metric on the same values).
+    A pre-computed distance matrix keeps float64: with a float32 matrix the costs become numpy.float32 scalars, which Node.cost's
+    type check rejects with the library's TypeError - input validation of an unsupported dtype, not a statement of any property."""
+    import numpy as np
+
+    A = np.array(A, dtype=float)
+    if matrix:
+        return A
+    if how == "int":
+        if A.size and np.all(A == np.round(A)) and np.all(np.abs(A) < 2 ** 31):
+            return A.astype(np.int64)
+        how = "f32"
+    if how == "f32":
+        with np.errstate(over="ignore", under="ignore"):
+            B = A.astype(np.float32)
+        # only when single precision can hold the data without collapsing it (tiny / huge units stay in float64)
+        if np.all(np.isfinite(B)) and np.all((B != 0) == (A != 0)):
+            return B
+    return A
+
+
+def present_layout(A, how):
+    """layout / flag part of a presentation, applied to each array at the moment it is handed to the API."""
+    import numpy as np
+
+    if how == "fortran" and getattr(A, "ndim", 0) == 2:
+        return np.asfortranarray(A)
+    if how == "readonly":
+        A = np.array(A)
+        A.setflags(write=False)
+    return A
+
 # --------------------------------------------------------------------------------------------------
 # importing the implementation
 # --------------------------------------------------------------------------------------------------
